@@ -5,12 +5,12 @@ func init() {
 		ID: "C01", Level: "model_checking",
 		Explanation: "Server.serve end to end (Handshake, readClientParameters, ClearTextPassword, writeParameters, session middleware, command loop) on: a valid startup packet with symbolic user/database, a symbolic password-phase message (any type byte, body of up to N arbitrary bytes, possibly cut by EOF), a validator that accepts/rejects/fails, and M arbitrary continuation bytes. A monitor over the capture and the callback trace decides every clause",
 		Assumptions: P(pgStub,
-			"the startup packet itself is well-formed (malformed startup belongs to C04/C12); password-phase messages declaring more than the 32-byte limit belong to C10",
+			"the startup packet itself is well-formed (malformed startup belongs to C04/C12); the password-phase length field is exact, below the 4-byte minimum, or above the 32-byte limit with the oversized body sent",
 		),
 		Runs: []HarnessRun{
 			{Pkg: "wire", Entry: "VerifH01b", What: "non-accepting cases never produce AuthenticationOk/ParameterStatus/ReadyForQuery, middleware, parsing or execution; wrong password -> class 28 ErrorResponse; connection closed",
 				Quick: map[string]int{"N": 2, "M": 5}, Thorough: map[string]int{"N": 4, "M": 8},
-				Witnesses: []string{"accepted", "malformed-password-message", "rejected-with-pipelined-bytes", "validator-failed"}},
+				Witnesses: []string{"accepted", "malformed-password-message", "rejected-with-pipelined-bytes", "validator-failed", "password-length-below-minimum", "password-length-above-limit"}},
 		},
 	})
 	props = append(props, PropSpec{
